@@ -1,9 +1,9 @@
 SPECIFICATION GSpec
 CONSTANTS
-  Tasks = {1, 2}
-  Queries = {1, 2, 3, 4, 5, 6}
-  Deps <- DepsD
-  Roots <- RootsD
+  Tasks = {1, 2, 3}
+  Queries = {1, 2, 3, 4}
+  Deps <- DepsF
+  Roots <- RootsF
   SubscribeLate = FALSE
   MaxAbandon = 0
   SilentAbandon = FALSE
@@ -12,5 +12,6 @@ CONSTANTS
 INVARIANT Emit
 INVARIANT SingleFlight
 INVARIANT OncePerEpoch
+INVARIANT CutExact
 VIEW View
 CHECK_DEADLOCK FALSE
